@@ -7,7 +7,7 @@ built-in container" (property statements C01, C03)."""
 import z3
 
 from pyvc import smt
-from pyvc.smt import Val, VNone, VAbsent, VRef, pyeq, BoolS, IntS
+from pyvc.smt import Val, VNone, VAbsent, VRef, VInt, pyeq, BoolS, IntS
 from pyvc.values import Z, Bv, Iv, Const, ObjV, KwV, Raise, Unsupported, to_val, as_int
 from pyvc import builtins_spec as bs
 from pyvc import scene as scn
@@ -60,6 +60,8 @@ LIST_API = {
     "__contains__": dict(params=["key"], kind="read"),       # inherited: collections.abc.Sequence.__contains__
     "index": dict(params=["value"], kind="read"),            # inherited: Sequence.index, one-argument form
     "count": dict(params=["value"], kind="read"),            # inherited: Sequence.count (generator + sum, [L-GENSUM])
+    # Sequence.index(value, start, stop) with arbitrary integer bounds (negative ones re-load for len(self))
+    "index3": dict(params=["value", "start", "stop"], kind="read", method="index", ints=["start", "stop"]),
     "__call__": dict(params=[], kind="read"),
     "__eq__": dict(params=["other"], kind="read"),
     "__lt__": dict(params=["other"], kind="read"),
@@ -192,6 +194,24 @@ class Expect:
                 self._from(T["index"], [a["value"]])
             elif meth == "count":
                 self._from(T["count"], [a["value"]])
+            elif meth == "index3":
+                # list.index(x, start, stop): negative bounds are taken relative to the length (start clamped at 0);
+                # the least i with lo <= i < hi, 0 <= i < len, element i is / == x; ValueError if there is none
+                x_, s_, e_ = a["value"], a["start"], a["stop"]
+                def bounds(v):
+                    n_ = bs.list_len(v)
+                    lo = z3.If(s_ < 0, z3.If(n_ + s_ >= 0, n_ + s_, z3.IntVal(0)), s_)
+                    hi = z3.If(e_ < 0, e_ + n_, e_)
+                    return VInt(lo), VInt(hi)
+                self.raises = [("ValueError", lambda v: z3.Not(bs.list_contains_in(v, x_, *bounds(v))))]
+                self.result = lambda v: bs.list_index_in(v, x_, *bounds(v))
+                # [SPEC-BUILTIN] definitional instance for the expected term itself: a hit lies inside the bounds
+                def spec_axioms(v):
+                    lo_, hi_ = bounds(v)
+                    r_ = bs.list_index_in(v, x_, lo_, hi_)
+                    return [z3.Implies(bs.list_contains_in(v, x_, lo_, hi_),
+                                       z3.And(r_ >= 0, r_ >= Val.i(lo_), r_ < Val.i(hi_), r_ < bs.list_len(v)))]
+                self.axioms = spec_axioms
             elif meth == "__call__":
                 self.result = lambda v: v
             elif meth == "__eq__":
@@ -236,6 +256,11 @@ def symbolic_args(spec, st):
     a = {}
     vals = []
     for p in spec["params"]:
+        if p in spec.get("ints", ()):
+            t = smt.fresh("arg_" + p, IntS)        # an integer argument
+            a[p] = t
+            vals.append(Iv(t))
+            continue
         t = smt.fresh("arg_" + p)
         # arguments range over plain (JSON-like or arbitrary) values; synced operands are separate instances
         st.assume(z3.Not(smt.is_VRef(t)), t != VAbsent)
@@ -268,7 +293,7 @@ def run_instance(eng, prover, inst, props):
     st = s.st
     kind = scn.kind_of_class(eng, s.cls)
     spec = api_of(kind)[inst.meth]
-    r = P.lookup_method(s.cls, inst.meth)
+    r = P.lookup_method(s.cls, spec.get("method", inst.meth))
     if r is None or isinstance(r, tuple):
         raise Unsupported(f"{inst.cname}.{inst.meth} does not resolve to a function")
     fi = r
@@ -341,6 +366,12 @@ def run_instance(eng, prover, inst, props):
             Vload, VloadRoot = V0, pre.sel("View", rn)
         Vend = x.sel("View", n)
         VendRoot = x.sel("View", rn)
+        arbitrary_iteration = spec["kind"] == "read" and any(t[0][0] == "loop-iteration" for t in x.trace if isinstance(t[0], tuple))
+        if not loads and arbitrary_iteration:
+            # a read whose path is one ARBITRARY iteration of a loop (loop rule: the events of the earlier iterations -
+            # their loads included - are not on this path): the view the result is judged against is the one of the
+            # iteration's state, which the loop invariant relates to the backend content as of the call
+            Vload, VloadRoot = Vend, VendRoot
         if inst.operand == "synced":
             a["other"] = x.sel("View", z3.IntVal(s.o2.addr))
             exp = Expect(eng, s.cls, kind, alias, a)
@@ -356,6 +387,13 @@ def run_instance(eng, prover, inst, props):
                     prover.goal(f"C10/{base}/release-only-held", prefix_state(x, e), e[3] > 0, info=ctx)
             from props.locks import check_lock_order
             check_lock_order(eng, prover, f"C10/{base}/lock-order", x, ctx)
+
+        for qp in ("C01", "C02", "C04"):
+            if qp in props and not faulty:
+                # the next operation's proof starts from a quiescent state: this one leaves the shared suspend counter as
+                # it found it on EVERY exit (a raised counter silently disables the next load and save)
+                prover.goal(f"{qp}/{base}/quiescent:suspend-count-restored",
+                            x, as_int(x.rec(s.susp).fields["_count"]) == s.susp0, info=ctx)
 
         if "C18" in props:
             prot_names = None
@@ -388,6 +426,10 @@ def run_instance(eng, prover, inst, props):
                 prover.structural(f"C17/{base}/no-save-event", not any(e[0] == "save" for e in x.events), x, ctx)
             if "C02" in props and not faulty:
                 ok = bool(loads) and (first_access is None or loads[0][0] < first_access)
+                if not loads and first_access is None and arbitrary_iteration:
+                    # one arbitrary iteration of a read loop that neither loads nor touches the in-memory tree
+                    # (Sequence.index leaving through `i < stop`): nothing cached is read on this path
+                    ok = True
                 prover.structural(f"C02/{base}/load-before-read", ok, x, ctx)
                 if loads:
                     prover.goal(f"C02/{base}/loads-current-content", x, loads[0][1][2] == R0, info=ctx)
@@ -480,6 +522,8 @@ def check_result_and_errors(eng, prover, pid, base, x, res, exp, Vload, pre, ctx
     is silently ignored on a normal exit."""
     normal = not isinstance(res, Raise)
     conds = [(e, (c(Vload) if callable(c) else c)) for (e, c) in exp.raises]
+    for ax_ in (exp.axioms(Vload) if getattr(exp, "axioms", None) else ()):
+        x.assume(ax_)
     rej = exp.rejects(Vload) if callable(exp.rejects) else exp.rejects
     if normal:
         for (e, c) in conds:
